@@ -37,7 +37,7 @@ for p in props:
             "replay_cmd_template": "./check replay {path}",
             "engine": "rocq-model+correspondence",
             "level_claimed": {"category": "proof", "text": text, "design_ref": ref},
-            "level_note": "Trusted: Coq 8.16.1 kernel (+vm_compute), no axioms; hand-written Gallina model tied to /repo by differential correspondence (Rust harness vs model extracted with ExtrOcamlBasic); OCaml/Rust toolchains; see DESIGN.md §8",
+            "level_note": "Trusted: Coq 8.16.1 kernel (+vm_compute), no axioms; hand-written Gallina model tied to /repo on every run by differential correspondence (Rust harness vs model extracted with ExtrOcamlBasic; engineered generators + a coverage-guided explorer of the current sources that only proposes inputs) and by two structural ties for what no input can show (srcsync: state shape, 32-bit length narrowing); OCaml/Rust toolchains; see DESIGN.md §4, §8",
             "technique": "machine-checked proof in Rocq (Coq 8.16) over an executable model + model/implementation correspondence check",
         })
     else:
